@@ -346,8 +346,17 @@ where
                 }
 
                 loop {
-                    // Disable the notifier if there was one left over
-                    stream_core.lock().unwrap().notify_stream_closed = None;
+                    {
+                        let mut stream_core = stream_core.lock().unwrap();
+
+                        // Disable the notifier if there was one left over
+                        stream_core.notify_stream_closed = None;
+
+                        // Stop (which releases the input stream) if the output stream was dropped while we were processing the last item
+                        if stream_core.closed {
+                            return false;
+                        }
+                    }
 
                     // Poll the stream
                     let next = {
@@ -358,7 +367,14 @@ where
                     match next {
                         // Wait for notification when the stream goes pending
                         Poll::Pending       => {
-                            stream_core.lock().unwrap().notify_stream_closed = Some(desync_waker.clone());
+                            let mut stream_core = stream_core.lock().unwrap();
+
+                            // The output stream may have been dropped since we last checked: it can no longer wake us, so stop now
+                            if stream_core.closed {
+                                return false;
+                            }
+
+                            stream_core.notify_stream_closed = Some(desync_waker.clone());
                             return true
                         },
 
